@@ -1,3 +1,5 @@
 import Cql.Audit
 import Cql.Props.C04
+import Cql.Props.C04Value
 #audit_namespace Cql.Props.C04
+#audit_namespace Cql.Props.C04Value
